@@ -257,6 +257,10 @@ def gen_def(rng, prof):
                     val = lit({"a": rng.randint(3, 9)})
                 if v not in ("x", "n", "d") and v in published and rng.random() < prof.p_null_over:
                     val = lit(None)   # a null published over an existing value must win
+                if v == "d":
+                    # `d` stays a dictionary: the failing expression `ctx(d).zz` must fail, and YAQL
+                    # maps a key over a *list* without raising (the fragment does not model that)
+                    val = lit({"a": rng.randint(3, 9)})
                 if v in ("x", "n"):
                     # these are compared numerically elsewhere; keep them integers (YAQL orders
                     # null and integers without raising, which the fragment does not model)
